@@ -92,7 +92,7 @@ func genProxiedRequest(r *core.Rand, id, limit int) ReqSpec {
 	failing := r.Chance(2, 5)
 	if failing {
 		h.Code = 1 + r.Intn(16)
-		h.Msg = r.PickS("backend says no", "x", "denied: quota", "a/b c", "100% sure", "a%b", "caf\u00e9 closed", "tab\there", "%", "ends in %")
+		h.Msg = r.PickS("backend says no", "x", "denied: quota", "a/b c", "100% sure", "a%b", "caf\u00e9 closed", "tab\there", "%", "ends in %", "100%25", "/help%2Fquota", "%41%42c", "%%", "%e2%82", "%zz%4")
 		h.Details = r.Chance(1, 2)
 	}
 	switch mi.Shape() {
@@ -176,6 +176,9 @@ func genProxiedRequest(r *core.Rand, id, limit int) ReqSpec {
 		// error, context still live): the backend must not take it for a
 		// complete stream
 		sp.Fault.Kind = r.PickS("cut", "readerr")
+	}
+	if sp.Proto == "http" && r.Chance(1, 2) {
+		sp.Fault.Err = "ueof"
 	}
 	// a second and third binary key
 	if r.Chance(1, 3) {
